@@ -47,6 +47,8 @@ Init ==
     misack  |-> FALSE,     \* an ack did not answer the oldest owed packet
     needProto |-> FALSE,   \* a bad ack arrived on a healthy connection: protocol stop is due
     term    |-> FALSE,     \* a termination cause was injected / the connection is ending
+    wrbReal |-> FALSE,     \* the back-pressure in force was signalled by the transport (not injected)
+    stall   |-> FALSE,     \* the peer does not read (the transport is capped)
     stops   |-> 0,
     stopProto |-> FALSE,
     wrb     |-> FALSE,
@@ -229,8 +231,9 @@ OnSendDone(mm, ev) ==
   ELSE m0
 
 OnCtl(m, ev) ==
-  CASE ev.k = "wrb_on" -> [m EXCEPT !.wrb = TRUE]
-    [] ev.k = "wrb_off" -> [m EXCEPT !.wrb = FALSE]
+  \* (s >= 0: told by the connection's control service, i.e. real transport back-pressure; s = -1: injected through the hook)
+  CASE ev.k = "wrb_on" -> [m EXCEPT !.wrb = TRUE, !.wrbReal = (ev.s >= 0)]
+    [] ev.k = "wrb_off" -> [m EXCEPT !.wrb = FALSE, !.wrbReal = FALSE]
     [] ev.k \in {"stop_proto", "stop_error", "stop_peer"} ->
          LET m1 == [m EXCEPT !.stops = @ + 1, !.term = TRUE,
                              !.stopProto = @ \/ ev.k = "stop_proto",
@@ -255,6 +258,10 @@ OnQuiet(m, ev) ==
 OnSettled(m, ev) ==
   IF Healthy(m) /\ ~m.wrb /\ Len(m.owed) = 0 /\ ev.s # 0
     THEN Fail(m, "C13:sender-still-blocked-at-quiescence")
+  ELSE IF Healthy(m) /\ m.wrb /\ m.wrbReal /\ ~m.stall
+    THEN \* the transport takes everything again, every handler of the scenario has finished and everything runnable
+         \* has run, yet the sink was never told that write back-pressure is over: whoever waits on it waits for ever
+         Fail(m, "C13:write-back-pressure-still-signalled-after-the-transport-drained")
   ELSE m
 
 OnPanic(m, ev) == Fail(m, "C06:panic")
@@ -277,6 +284,7 @@ Step(m, ev) ==
     [] ev.e = "ctl"     -> OnCtl(m, ev)
     [] ev.e = "quiet"   -> OnQuiet(m, ev)
     [] ev.e = "settled" -> OnSettled(m, ev)
+    [] ev.e = "cap"     -> [m EXCEPT !.stall = (ev.n >= 0)]
     [] ev.e = "panic"   -> OnPanic(m, ev)
     [] ev.e \in {"peer_close", "io_err", "close", "conn_done", "stream_drop", "end"} ->
          [m EXCEPT !.term = TRUE]
